@@ -1092,11 +1092,14 @@ def run(chk: Check) -> int:
         dot = Path(str(base) + ".dot")
         nodes, edges, init = load_dot_raw(dot)
         dot.unlink()
-        paths = sorted(leaf_paths(nodes, edges, init))
+        rg = tlc.RawGraph(nodes, edges, init)
+        paths = sorted(rg.tree_paths())
         chk.extra.setdefault("graph_paths", {})[cfg] = len(paths)
-        if len(paths) > budget:
+        # tree paths + the same events after other histories (non-tree edges), stratified by the kinds of the last transitions
+        paths, full = tlc.choose_paths(rg, paths, budget + (0 if len(paths) > budget else min(len(paths), 1500)), rnd)
+        paths = sorted(paths)
+        if not full:
             chk.exhaustive = False
-            paths = sorted(rnd.sample(paths, budget))
         replay_graph(chk, tab, nk, nodes, edges, init, paths, scratch)
         del nodes, edges
 
@@ -1602,10 +1605,12 @@ def run_cross(chk: Check, owner: str):
         dot = Path(str(base) + ".dot")
         nodes, edges, init = load_dot_raw(dot)
         dot.unlink()
-        paths = sorted(leaf_paths(nodes, edges, init))
+        rg = tlc.RawGraph(nodes, edges, init)
+        paths = sorted(rg.tree_paths())
         budget = 9000 if quick else 120000
-        if len(paths) > budget:
-            paths = sorted(rnd.sample(paths, budget))
+        paths, full = tlc.choose_paths(rg, paths, budget, rnd)
+        paths = sorted(paths)
+        if not full:
             chk.extra[f"squeeth_{owner}_sampled_paths"] = budget
         n = max(1, min(64, len(paths) // 50))
         size = (len(paths) + n - 1) // n
